@@ -57,8 +57,8 @@ theorem wrap_uaf_state :
     as coded guarantees `balanced_history_returns_to_baseline` only when the holders are really all released;
     values that hold each other never are (the driver has no cycle collector: open known finding `cyclic-garbage`). -/
 theorem cycle_leaks :
-    ∃ s, run St.init [.newarr 0 2, .aset 0 0 0, .free 0] = .ok s ∧ s.roots.all Val.isNum = true ∧
-      H s 0 = 1 ∧ s.stats.numArrays = 1 ∧ (∃ cell, s.heap[0]? = some cell ∧ cell.live = true ∧ cell.ref = 1) := by
+    ∃ s, run St.init [.newarr 0 2, .aset 0 0 0, .free 0] = .ok s ∧ (s.roots.take nSlots).all Val.isNum = true ∧
+      H s 2 = 1 ∧ s.stats.numArrays = 1 ∧ (∃ cell, s.heap[2]? = some cell ∧ cell.live = true ∧ cell.ref = 1) := by
   refine ⟨_, rfl, ?_, ?_, ?_, ⟨_, rfl, rfl, rfl⟩⟩ <;> decide
 
 /-- the cycle object → mapping → function pointer → object is cut by destruct2 (it releases the variables of a
@@ -69,11 +69,15 @@ theorem object_cycle_cut_by_destruct :
       s.stats.numArrays = 0 ∧ s.stats.numMappings = 0 ∧ s.stats.objects = 0 := by
   refine ⟨_, rfl, ?_, ?_, ?_⟩ <;> decide
 
-/-- **prog_wrap_uaf** (open known finding `program-ref-wrap`): `program_t.ref` has `progRefBits` bits and no overflow
-    handling.  The blueprint (1) plus 2^PW clones wrap it back to 1; the first free_prog (one clone destructed)
-    deallocates the program although 2^PW holders remain, and the next free_prog touches freed memory. -/
-theorem prog_wrap_uaf :
-    (pInc {} (2 ^ PW)).pref = 1 ∧ (pDec (pInc {} (2 ^ PW)) 1).map (·.pfreed) = some true ∧
-    (pDec (pInc {} (2 ^ PW)) 2).isNone = true := by decide
+/-- **prog_wrap_uaf** (known finding `program-ref-wrap`, repaired by repo commit 0280873): why the width of
+    `program_t.ref` matters.  At the width it had (16 bits) the blueprint plus 2^16 clones wrap the counter back to 1;
+    the first free_prog (one clone destructed) deallocates the program although 2^16 holders remain.  The same
+    arithmetic at any width w: `prog_widths_agree` + `FitsRun` exclude it for the counters as they are now. -/
+theorem prog_wrap_uaf (w : Nat) (hw : 0 < w) :
+    (1 + 2 ^ w) % 2 ^ w = 1 ∧ ((1 + 2 ^ w) % 2 ^ w + 2 ^ w - 1) % 2 ^ w = 0 := by
+  have h1 : 1 < 2 ^ w := Nat.one_lt_two_pow (by omega)
+  have e : (1 + 2 ^ w) % 2 ^ w = 1 := by rw [Nat.add_mod_right, Nat.mod_eq_of_lt h1]
+  refine ⟨e, ?_⟩
+  rw [e, show 1 + 2 ^ w - 1 = 2 ^ w by omega, Nat.mod_self]
 
 end NV.C06
